@@ -21,6 +21,8 @@ type c10Node struct {
 	Threads string `json:"threads"`   // run stop io_error sql_error permanent
 	SS      string `json:"semi_sync"` // none slave master
 	Ahead   bool   `json:"has_own_transactions"`
+	// the first START REPLICA after a RESET REPLICA ALL fails once (error 1872)
+	ResetBreaksStart bool `json:"first_start_after_reset_fails"`
 }
 
 type c10Spec struct {
@@ -36,7 +38,7 @@ type c10Spec struct {
 
 var (
 	c10Sources = []string{"none", "master", "other", "decoy"}
-	c10Threads = []string{"run", "stop", "io_error", "sql_error", "permanent", "sticky_error", "permanent_src"}
+	c10Threads = []string{"run", "stop", "io_error", "sql_error", "permanent", "sticky_error", "permanent_src", "recurring_error"}
 	c10SS      = []string{"none", "slave", "master"}
 )
 
@@ -48,11 +50,12 @@ func c10Gen(seed int64, idx int) c10Spec {
 	for i := 1; i < sp.N; i++ {
 		var nd c10Node
 		if i == 1 {
-			nd = c10Node{RO: g%2 == 0, Offline: (g/2)%2 == 1, Source: c10Sources[(g/4)%4], Threads: c10Threads[(g/16)%7], SS: c10SS[(g/112)%3]}
+			nd = c10Node{RO: g%2 == 0, Offline: (g/2)%2 == 1, Source: c10Sources[(g/4)%4], Threads: c10Threads[(g/16)%8], SS: c10SS[(g/128)%3]}
 		} else {
-			nd = c10Node{RO: r.Intn(2) == 0, Offline: r.Intn(4) == 0, Source: c10Sources[r.Intn(4)], Threads: c10Threads[r.Intn(7)], SS: c10SS[r.Intn(3)]}
+			nd = c10Node{RO: r.Intn(2) == 0, Offline: r.Intn(4) == 0, Source: c10Sources[r.Intn(4)], Threads: c10Threads[r.Intn(8)], SS: c10SS[r.Intn(3)]}
 		}
 		nd.Ahead = nd.Source == "none" && r.Intn(2) == 0
+		nd.ResetBreaksStart = (idx/4)%3 == 1
 		sp.Nodes = append(sp.Nodes, nd)
 	}
 	if r.Intn(3) == 0 {
@@ -62,7 +65,7 @@ func c10Gen(seed int64, idx int) c10Spec {
 }
 
 const (
-	c10Cooldown = 10 * time.Second
+	c10Cooldown = 15 * time.Second
 	c10Attempts = 3
 )
 
@@ -96,6 +99,7 @@ func c10Run(u *Unit) {
 			x := w.Servers[hosts[i+1]]
 			x.ReadOnly, x.SuperRO, x.Offline = nd.RO, nd.RO, nd.Offline
 			x.SSMaster, x.SSSlave, x.SSReg = nd.SS == "master", nd.SS == "slave", nd.SS == "slave"
+			x.ResetBreaksStart = nd.ResetBreaksStart
 			switch nd.Source {
 			case "none":
 				x.Source, x.IORun, x.SQLRun = "", false, false
@@ -129,6 +133,9 @@ func c10Run(u *Unit) {
 				case "permanent":
 					x.IORun, x.SQLRun, x.LastIOErrno, x.StickyErr = true, true, 13114, true
 					permanent[x.Host] = true
+				case "recurring_error":
+					// an applier error (duplicate key) that returns whenever the SQL thread starts, also after a reset
+					x.IORun, x.SQLRun, x.LastSQLErrno, x.RecurErr = true, true, 1062, 1062
 				case "permanent_src":
 					// a permanent error code that belongs to the current source (it purged the binary logs this replica needs):
 					// it comes back after every START while the replica points there, and is gone once it is pointed elsewhere
@@ -188,7 +195,7 @@ func c10Run(u *Unit) {
 		})
 		s.Start()
 		// K = 6 + attempts x (cooldown / tick) completed iterations, plus start-up
-		k := 6 + c10Attempts*int(c10Cooldown/(5*time.Second))
+		k := 6 + 2*c10Attempts*int(c10Cooldown/(5*time.Second)) // two repair methods, each with its own attempts
 		time.Sleep(time.Duration(k)*5*time.Second + 25*time.Second)
 		// verdict on ground truth
 		w.Lock()
@@ -219,7 +226,7 @@ func c10Run(u *Unit) {
 			if !x.ReadOnly {
 				bad = append(bad, h+" is not read-only")
 			}
-			exhausted := nd.Threads == "permanent" || x.StickyErr
+			exhausted := nd.Threads == "permanent" || x.StickyErr || x.RecurErr != 0
 			if nd.Threads == "permanent_src" && (nd.Source == "other" || nd.Source == "decoy") && x.StickySource != master {
 				// no repair attempt is involved: the error belongs to the wrong source, re-pointing to the recorded master cures it
 				exhausted = false
@@ -296,5 +303,5 @@ func init() {
 			}
 			return f
 		},
-		Rule: "unit = initial state of a 3-4 node cluster: the first non-master node walks the grid read-only x offline x source {none, master, another replica, an unregistered decoy} x threads {running, stopped, IO error, SQL error, recurring error, permanent error code, permanent error code caused by the current source} x semi-sync flag (336 cells, all in thorough x 4 configurations, a prefix in quick), the other nodes and the master's flags are seeded; optionally every k-th mutating statement fails; a decoy server exists in every run; bounded convergence is judged on ground truth after K iterations, safety clauses at every event; distinct by (configuration, master flags, grid cell, failure schedule)"})
+		Rule: "unit = initial state of a 3-4 node cluster: the first non-master node walks the grid read-only x offline x source {none, master, another replica, an unregistered decoy} x threads {running, stopped, IO error, SQL error, error cured by a reset only, permanent error code, permanent error code caused by the current source, applier error recurring even after a reset} x semi-sync flag (384 cells, all in thorough x 4 configurations, a prefix in quick), the other nodes and the master's flags are seeded; optionally every k-th mutating statement fails, and on a third of the shapes the first START REPLICA after a RESET REPLICA ALL fails once (error 1872); a decoy server exists in every run; bounded convergence is judged on ground truth after K iterations, safety clauses at every event; distinct by (configuration, master flags, grid cell, failure schedule)"})
 }
